@@ -104,7 +104,7 @@ CHECKS = {
     "C07": dict(
         level="model_checking",
         clauses=GEN_CLAUSES_SPEC | {"errclass", "lca", "lca-internal"},
-        phases=dict(quick=[dict(kind="argspace", verbs=["union"]), dict(kind="lca", max_n=2), dict(profile="union2"), dict(profile="union2", opts=dict(alt=True)), dict(profile="unionh4"), dict(profile="unionc5"), dict(profile="unions4"), dict(profile="unionj4")], thorough=[dict(kind="argspace", verbs=["union"], ucols=["a", "b", "c", "d"]), dict(kind="lca", max_n=2), dict(profile="union2"), dict(profile="union2", opts=dict(alt=True)), dict(profile="union3"), dict(profile="unionh4"), dict(profile="unionc5"), dict(profile="unions4"), dict(profile="unionj4")]),
+        phases=dict(quick=[dict(kind="argspace", verbs=["union"]), dict(kind="lca", max_n=2), dict(profile="union2"), dict(profile="union2", opts=dict(alt=True)), dict(profile="unionh4"), dict(profile="unionc5"), dict(profile="unions4"), dict(profile="unionj4"), dict(profile="reroot3")], thorough=[dict(kind="argspace", verbs=["union"], ucols=["a", "b", "c", "d"]), dict(kind="lca", max_n=2), dict(profile="union2"), dict(profile="union2", opts=dict(alt=True)), dict(profile="union3"), dict(profile="unionh4"), dict(profile="unionc5"), dict(profile="unions4"), dict(profile="unionj4")]),
     ),
     "C08": dict(
         level="model_checking",
@@ -129,7 +129,7 @@ CHECKS = {
         level="model_checking",
         clauses={"rows", "order", "names", "accept", "export-error", "cross-rows", "errclass", "cast-accept", "cast-internal"},
         phases=dict(quick=[dict(kind="castmatrix"), dict(profile="cast1"), dict(profile="cast1", opts=dict(src="lazy_ns")), dict(profile="cast1", opts=dict(src="pandas"))],
-                    thorough=[dict(kind="castmatrix"), dict(profile="cast1"), dict(profile="cast1", opts=dict(src="lazy_ns")), dict(profile="cast1", opts=dict(src="pandas")), dict(profile="fn1"), dict(profile="ty2")]),
+                    thorough=[dict(kind="castmatrix"), dict(profile="cast1"), dict(profile="cast1", opts=dict(src="lazy_ns")), dict(profile="cast1", opts=dict(src="pandas")), dict(profile="fn1")]),
     ),
     "C18": dict(
         level="model_checking",
@@ -240,6 +240,12 @@ CHECKS = {
 
 TRUST = ("Trusted: TLC and the CommunityModules Java overrides; polars and SQLite as execution engines; the projection / comparison "
          "code of the replayer (exercised by ./check selftest). Bounded: exhaustive only up to the stated depth, alphabet and data bounds.")
+
+# the thorough tier contains every phase of the quick tier
+for _c in CHECKS.values():
+    for _ph in _c["phases"]["quick"]:
+        if _ph not in _c["phases"]["thorough"]:
+            _c["phases"]["thorough"].append(_ph)
 
 MANIFEST_TEXT = {
     "C02": dict(
